@@ -389,7 +389,25 @@ def rule_closest_place(ck):
     ck.ob("mpt.closest_place", "subprogram-key=(name,ranges)", ok, f"{key[0]['fields'] if key else None}", f.loc())
 
 
+def rule_prologue_walk(ck):
+    """where the walk from a function's first row to its prologue_end row may stop"""
+    prog = ck.prog
+    ck.rule("mpt.prologue_walk", "FatDieRef<Function>::prolog_end_place walks the line rows from the function's first row until a prologue_end row, bounded by the function's end address and the end of the line sequence, and by nothing else: rows that carry another source file are rows of inlined callees and belong to the function (in optimised code the prologue_end row usually is one), so the walk is not cut by a file comparison")
+    fs = [f for p, f in prog.fns.items() if p.endswith("::prolog_end_place")]
+    if not ck.ob("mpt.prologue_walk", "prolog_end_place/exists", len(fs) == 1, "", ""):
+        return
+    f = fs[0]
+    ck.saw(f)
+    names = [c.name for x in prog.with_closures(f.path) for c in x.calls()]
+    file_cmp = [n for n in names if re.search(r"(PathBuf|Path|OsStr|OsString|str|String)( as std::cmp::PartialEq.*)?>::(eq|ne)$|cmp::PartialEq for (std::path::)?(Path|PathBuf).*::(eq|ne)$", n)]
+    ck.ob("mpt.prologue_walk", "prolog_end_place/not-cut-by-a-file-comparison", not file_cmp, f"{file_cmp[:2]}", f.loc(), what="the walk to the prologue_end row stops at the first row of another file: function breakpoints in optimised code land on the function's first instruction")
+    nxt = [c for c in f.calls() if c.name.endswith("PlaceDescriptor::next") or c.name.endswith("::next") and "PlaceDescriptor" in c.name]
+    es = any(".end_sequence" in expr_str(expr_of(f, blk["term"]["discr"], depth=8), 8) for blk in f.blocks if blk["term"]["t"] == "switch")
+    ck.ob("mpt.prologue_walk", "prolog_end_place/stops-at-the-end-of-the-sequence", bool(nxt) and es, f"next() calls: {len(nxt)}, end_sequence tested: {es}", f.loc())
+
+
 def run(ck):
+    rule_prologue_walk(ck)
     rule_closest_place(ck)
     rule_flags(ck)
     rule_sort_search(ck)
